@@ -57,6 +57,10 @@ class Gen(object):
     def array(self, depth=1):
         n = self.r.choice([0, 1, 2, 2, 3])
         style = self.r.random()
+        if style < 0.12 and depth >= 0:      # arrays nested in arrays
+            return [[self.scalar(self.r.choice('ifsb')) for _ in range(self.r.choice([0, 1, 2]))]
+                    if self.r.random() < 0.7 else self.scalar(self.r.choice('ifs'))
+                    for _ in range(max(n, 1))]
         if style < 0.4:      # scalars of one kind
             k = self.r.choice('ifs')
             return [self.scalar(k) for _ in range(n)]
